@@ -1724,6 +1724,92 @@ def _unroll_zip_displays(node: ast.FunctionDef) -> bool:
     return False
 
 
+class _MapUnbound(ast.NodeTransformer):
+    """map(str.strip, X) is (v.strip() for v in X): an unbound str / bytes method mapped over one iterable"""
+    n_ = 0
+
+    def visit_Call(self, n):
+        n = self.generic_visit(n)
+        if isinstance(n.func, ast.Name) and n.func.id == "map" and len(n.args) == 2 and not n.keywords and isinstance(n.args[0], ast.Attribute) and \
+                isinstance(n.args[0].value, ast.Name) and n.args[0].value.id in ("str", "bytes") and not n.args[0].attr.startswith("_"):
+            _MapUnbound.n_ += 1
+            v = f"__m{_MapUnbound.n_}"
+            elt = ast.Call(func=ast.Attribute(value=ast.Name(id=v, ctx=ast.Load()), attr=n.args[0].attr, ctx=ast.Load()), args=[], keywords=[])
+            g = ast.GeneratorExp(elt=elt, generators=[ast.comprehension(target=ast.Name(id=v, ctx=ast.Store()), iter=n.args[1], ifs=[], is_async=0)])
+            return ast.fix_missing_locations(ast.copy_location(g, n))
+        return n
+
+
+def _bool_buckets(node: ast.FunctionDef) -> bool:
+    """D = defaultdict(list); D[<test>].append(x); .. D[True] .. D[False] ..   is two lists filled under `if <test>: .. else: ..`:
+    a dict keyed by a truth value is a pair of buckets.  Only when every use of D is D[True] / D[False] or such an append."""
+    for block in _blocks(node):
+        for i, st in enumerate(block):
+            tgt = st.targets[0] if isinstance(st, ast.Assign) and len(st.targets) == 1 else (st.target if isinstance(st, ast.AnnAssign) and st.value is not None else None)
+            v = getattr(st, "value", None)
+            if not (isinstance(tgt, ast.Name) and isinstance(v, ast.Call) and ast.unparse(v.func) in ("defaultdict", "collections.defaultdict") and
+                    len(v.args) == 1 and not v.keywords and ast.unparse(v.args[0]) == "list"):
+                continue
+            d = tgt.id
+            if sum(1 for n in ast.walk(node) if isinstance(n, ast.Name) and n.id == d and isinstance(n.ctx, ast.Store)) != 1:
+                continue
+            parents = {}
+            for n in ast.walk(node):
+                for ch in ast.iter_child_nodes(n):
+                    parents[id(ch)] = n
+            uses = [n for n in ast.walk(node) if isinstance(n, ast.Name) and n.id == d and isinstance(n.ctx, ast.Load)]
+            consts, fills = [], []
+            ok = bool(uses)
+            for u in uses:
+                sub = parents.get(id(u))
+                if not (isinstance(sub, ast.Subscript) and sub.value is u and isinstance(sub.ctx, ast.Load)):
+                    ok = False
+                    break
+                if isinstance(sub.slice, ast.Constant) and isinstance(sub.slice.value, bool):
+                    consts.append(sub)
+                    continue
+                att = parents.get(id(sub))
+                call = parents.get(id(att))
+                ex = parents.get(id(call))
+                if isinstance(att, ast.Attribute) and att.attr == "append" and isinstance(call, ast.Call) and call.func is att and len(call.args) == 1 and \
+                        not call.keywords and isinstance(ex, ast.Expr) and isinstance(sub.slice, (ast.Compare, ast.BoolOp, ast.UnaryOp)) and \
+                        (not isinstance(sub.slice, ast.UnaryOp) or isinstance(sub.slice.op, ast.Not)):
+                    fills.append((ex, sub, call))
+                else:
+                    ok = False
+                    break
+            if not ok or not fills:
+                continue
+            t_, f_ = f"{d}__True", f"{d}__False"
+            for sub in consts:
+                sub_parent = parents[id(sub)]
+                new = ast.copy_location(ast.Name(id=t_ if sub.slice.value else f_, ctx=ast.Load()), sub)
+                for fld, val in ast.iter_fields(sub_parent):
+                    if val is sub:
+                        setattr(sub_parent, fld, new)
+                    elif isinstance(val, list):
+                        for k_, x in enumerate(val):
+                            if x is sub:
+                                val[k_] = new
+                for kw in getattr(sub_parent, "keywords", []) or []:
+                    if kw.value is sub:
+                        kw.value = new
+            for ex, sub, call in fills:
+                def app(nm):
+                    return ast.Expr(value=ast.Call(func=ast.Attribute(value=ast.Name(id=nm, ctx=ast.Load()), attr="append", ctx=ast.Load()),
+                                                   args=[copy.deepcopy(call.args[0])], keywords=[]))
+                new = ast.copy_location(ast.If(test=sub.slice, body=[app(t_)], orelse=[app(f_)]), ex)
+                for b2 in _blocks(node):
+                    for k_, x in enumerate(b2):
+                        if x is ex:
+                            b2[k_] = new
+            mk = lambda nm: ast.copy_location(ast.Assign(targets=[ast.Name(id=nm, ctx=ast.Store())], value=ast.List(elts=[], ctx=ast.Load())), st)   # noqa: E731
+            block[i:i + 1] = [mk(t_), mk(f_)]
+            ast.fix_missing_locations(node)
+            return True
+    return False
+
+
 def _cond_iterables(node: ast.FunctionDef) -> bool:
     """`for v in (A if c else ())` — directly or through a local bound once and used only there — is `if c: for v in A`: a loop over
     nothing is no loop"""
@@ -2080,6 +2166,10 @@ def normalise(M, fn, subst: bool = False, guards: bool = False, keep=(), comps: 
         if _unroll_zip_displays(node):
             changed.append("zip-displays")
         if not changed:
+            break
+    node = _MapUnbound().visit(node)
+    for _ in range(3):
+        if not _bool_buckets(node):
             break
     for _ in range(3):
         if not _fuse_tuple_buffers(node):
